@@ -20,7 +20,7 @@ NAME = "C11"
 
 CLASSES = ["LRUTrie", "CanonicalizedLRUTrie", "NormalizedLRUTrie", "FingerprintedLRUTrie"]
 CONST_VALUES = [None, 0, False, "", 1]
-FAULT_KINDS = ["set_unparseable", "iter_cancel"]
+FAULT_KINDS = ["set_unparseable", "lru_unhashable_token", "iter_cancel"]
 BAD_URLS = ["http://[::1", "http://[a.fr/x", "https://[x]y/"]
 
 COMPONENTS = {
@@ -211,7 +211,10 @@ def generate(seed, run, tier):
                         events.append({"op": "iter_cancel", "it": it, "how": frng.choice(["close", "throw"]), "c": "F"})
                         del live[it]
             if "set_unparseable" in enabled and frng.random() < fault_rate:
-                events.append({"op": "set_bad", "url": frng.choice(BAD_URLS), "val": {"c": "bad"}, "c": "W%d" % idx})
+                events.append({"op": "set_bad", "url": frng.choice(BAD_URLS), "val": {"c": "bad"}, "retry": frng.choice([0, 0, 1, 2]), "then_match": frng.random() < 0.3, "c": "W%d" % idx})
+            if "lru_unhashable_token" in enabled and frng.random() < fault_rate:
+                stems = draw_lru()
+                events.append({"op": "set_lru_bad", "stems": stems, "k": frng.randint(0, len(stems)), "val": {"c": "bad"}, "retry": frng.choice([0, 0, 1]), "c": "W%d" % idx})
             events.append(ev)
         elif kind == "R":
             op = weighted_choice(wrng, [("match", 5), ("match_lru", 3), ("len", 1)])
@@ -552,19 +555,49 @@ class Run(object):
             if not rejected:
                 stats.probe("bad_url_accepted_by_stem_function")
                 return
-            self.mutation_begins()
-            raised = None
-            try:
-                self.trie.set(url, dec_value(ev["val"]))
-            except Exception as exc:  # noqa
-                raised = type(exc).__name__
-            stats.event("%s|set_bad|%s|%s" % (ev.get("c"), r(url), raised))
-            stats.fault("set_unparseable")
-            if raised is None:
-                self.fail("failed_set_propagates", op, "returned", "an exception", {"url": url})
-            else:
-                stats.probe("set_unparseable_raised")
+            # a failed set stores nothing: live iterators stay judged; the caller
+            # may retry the very same call at once, or ask for a match of that URL
+            for attempt in range(1 + ev.get("retry", 0)):
+                raised = None
+                try:
+                    self.trie.set(url, dec_value(ev["val"]))
+                except Exception as exc:  # noqa
+                    raised = type(exc).__name__
+                stats.event("%s|set_bad|%s|%s|attempt %d" % (ev.get("c"), r(url), raised, attempt))
+                stats.fault("set_unparseable")
+                if attempt:
+                    stats.probe("failed_call_retried")
+                if raised is None:
+                    self.fail("failed_set_propagates", op, "returned", "an exception", {"url": url, "attempt": attempt})
+                else:
+                    stats.probe("set_unparseable_raised")
+            if ev.get("then_match"):
+                raised = None
+                try:
+                    got = self.trie.match(url)
+                except Exception as exc:  # noqa
+                    raised = type(exc).__name__
+                stats.event("%s|match_bad|%s|%s" % (ev.get("c"), r(url), raised))
+                if raised is None:
+                    self.fail("failed_match_propagates", op, r(got), "an exception", {"url": url})
             self.sweep("set_bad")
+        elif op == "set_lru_bad":
+            # a stem list with an unhashable token at position k: the call must
+            # fail and store nothing (len included)
+            stems = list(ev["stems"])
+            k = min(ev.get("k", 0), len(stems))
+            for attempt in range(1 + ev.get("retry", 0)):
+                bad = stems[:k] + [["unhashable"]] + stems[k:]
+                raised = None
+                try:
+                    self.trie.set_lru(bad, dec_value(ev["val"]))
+                except Exception as exc:  # noqa
+                    raised = type(exc).__name__
+                stats.event("%s|set_lru_bad|%s|%d|%s|attempt %d" % (ev.get("c"), canon(stems), k, raised, attempt))
+                stats.fault("lru_unhashable_token")
+                if raised is None:
+                    raise HarnessError("an unhashable stem was accepted")
+            self.sweep("set_lru_bad")
         elif op == "other_create":
             import ural.lru as lru
             import ural.lru.stems as stems_mod
@@ -767,6 +800,7 @@ PROBES = [
     "suffix_aware",
     "suffix_aware_multilabel_suffix",
     "set_unparseable_raised",
+    "failed_call_retried",
     "iterator_judged",
     "iter_cancelled",
     "other_instance_in_process",
